@@ -41,7 +41,7 @@ def msg_id(msg, sender_of):
 class Setup:
     """Builds the port(s) for one kind. send_port(lane)/recv_port."""
 
-    def __init__(self, kind, initq, sender_of, rng):
+    def __init__(self, kind, initq, sender_of, rng, nsenders=None):
         import mido.ports as mp
         self.kind = kind
         self.keep = []
@@ -97,7 +97,9 @@ class Setup:
             # "send" = the device thread delivering the bytes of one message
             from mido.backends._parser_queue import ParserQueue
             pq = ParserQueue()
-            single_writer = len({v for v in sender_of.values() if v}) <= 1
+            # (sender_of has one entry for all real-time messages, so count the threads)
+            single_writer = (nsenders if nsenders is not None else
+                             len({v for v in sender_of.values() if v})) <= 1
             if hasattr(pq, '_parser'):
                 pq._parser.messages = S.AnnDeque()
             pq._queue = S.AnnQueue(pq._queue)
@@ -160,7 +162,7 @@ def line_files():
 
 
 def run_program(kind, initq, prog, schedule=None, rng=None, policy='random',
-                budget=400, labels=None, line_level=False):
+                budget=400, labels=None, line_level=False, record=False):
     """prog: list (thread index 0..) of lists of ops {'op':..., 'm':..., 'lane':...}.
     schedule: list of thread ids (1-based) or None.
     Returns dict(results, events, final_q, divergences, hung)."""
@@ -180,7 +182,8 @@ def run_program(kind, initq, prog, schedule=None, rng=None, policy='random',
     results = {}
     try:
         with S.Patched(sc):
-            setup = Setup(kind, initq, sender_of, rng)
+            setup = Setup(kind, initq, sender_of, rng,
+                          nsenders=sum(1 for ops in prog if any(op['op'] == 'send' for op in ops)))
 
             def body(t, ops):
                 out = []
@@ -248,9 +251,22 @@ def run_program(kind, initq, prog, schedule=None, rng=None, policy='random',
                     started.add(t)
                     sc.step(t)
 
+            choices = []      # (chosen, runnable, awake, last) per step, when record=True
+            last = None
+            if record:
+                for t in list(sc.ts):
+                    start_only(t)
             if schedule is not None:
                 for i, t in enumerate(schedule):
                     start_only(t)
+                    if record:
+                        run = sc.runnable()
+                        if t not in run:
+                            div += 1
+                            break
+                        awake = [x for x in run if sc.ts[x].pending[0] != 'sleep']
+                        choices.append((t, tuple(run), tuple(awake), last))
+                        last = t
                     if not sc.enabled(t):
                         div += 1
                         continue
@@ -273,7 +289,11 @@ def run_program(kind, initq, prog, schedule=None, rng=None, policy='random',
                 awake = [t for t in run if sc.ts[t].pending[0] != 'sleep']
                 if awake:
                     run = awake
-                if policy == 'random':
+                if record:
+                    choices.append((None, tuple(sc.runnable()), tuple(awake), last))
+                if policy == 'stay':
+                    t = last if last in run else run[0]
+                elif policy == 'random':
                     t = rng.choice(run)
                 elif policy == 'pct':
                     t = max(run, key=lambda x: prio[x])
@@ -281,6 +301,9 @@ def run_program(kind, initq, prog, schedule=None, rng=None, policy='random',
                         prio[t] = -rng.random()       # priority change point
                 else:
                     t = run[0]
+                if record:
+                    choices[-1] = (t,) + choices[-1][1:]
+                last = t
                 sc.step(t)
             hung = [t for t, st in sc.ts.items() if not st.done]
             for t, st in sc.ts.items():
@@ -308,7 +331,8 @@ def run_program(kind, initq, prog, schedule=None, rng=None, policy='random',
         e.pop('seq', None)
     sent = sorted(op['m'] for ops in prog for op in ops if op['op'] == 'send') + sorted(initq)
     return {'results': results, 'events': events, 'final_q': final_q, 'divergences': div,
-            'hung': hung, 'optrace': sc.trace, 'drained': drained, 'sent': sorted(sent)}
+            'hung': hung, 'optrace': sc.trace, 'drained': drained, 'sent': sorted(sent),
+            'choices': choices}
 
 
 def direct_verdict(run):
@@ -331,3 +355,46 @@ def direct_verdict(run):
             return ('lost-or-duplicated', 'sent %r; received %r and drained afterwards %r' % (
                 run['sent'], got, rest))
     return None
+
+
+def explore(kind, initq, prog, max_preempt=2, limit=4000, seed=0, judge=None, line_level=False, budget=400,
+            shard=(0, 1)):
+    """Systematic exploration of the schedules of one program on the REAL port
+    code with at most max_preempt preemptions (iterative context bounding by
+    re-execution: every run is deterministic given its schedule prefix; after
+    the prefix the current thread keeps running while it can).  Calls
+    judge(run, schedule) for every run; stops at `limit` runs.
+    shard=(i, n): only the i-th of n parts of the root's subtrees (the root run
+    itself is judged by shard 0 only).
+    Returns (runs, complete)."""
+    stack = [([], 0)]
+    runs = 0
+    nchild = 0
+    while stack:
+        if runs >= limit:
+            return runs, False
+        prefix, used = stack.pop()
+        run = run_program(kind, initq, prog, schedule=prefix, rng=random.Random(seed), policy='stay',
+                          record=True, line_level=line_level, budget=budget)
+        runs += 1
+        ch = run['choices']
+        sched = [c[0] for c in ch]
+        run['schedule'] = sched
+        if judge is not None and (prefix or shard[0] == 0):
+            judge(run, sched)
+        if run['divergences']:
+            continue
+        for i in range(len(prefix), len(ch)):
+            chosen, runnable, awake, last = ch[i]
+            for alt in runnable:
+                if alt == chosen:
+                    continue
+                # leaving a thread that could go on, or waking a sleeper early, costs one
+                cost = 1 if (last in awake or (awake and alt not in awake)) else 0
+                if used + cost <= max_preempt:
+                    if not prefix:
+                        nchild += 1
+                        if nchild % shard[1] != shard[0]:
+                            continue
+                    stack.append((sched[:i] + [alt], used + cost))
+    return runs, True
